@@ -429,6 +429,9 @@ def apply_overrides(w, ov):
             w.dividends.pop(sid, None)
     for sid in set(list(ov.get('splits', {})) + list(ov.get('dividends', {}))):
         w.exfac[sid] = consistent_exfac(w, sid)
+    for sid, dints in ov.get('drop_bars', {}).items():   # a listed, unsuspended instrument without a bar on these days (no market data)
+        if sid in w.stock_bars:
+            w.stock_bars[sid] = [b for b in w.stock_bars[sid] if dint(b['d']) not in set(dints)]
     for sid, vol in ov.get('volume', {}).items():      # every bar of the instrument gets this volume (turnover rescaled: same vwap)
         for b in w.stock_bars.get(sid, []):
             if b['volume']:
